@@ -112,6 +112,9 @@ func run(c *mon.Ctx) {
 }
 
 func both(c *mon.Ctx, cs gen.Case, id string) {
+	if c.Saturated() {
+		return // the verdict is decided; see mon.Saturated
+	}
 	a := cs.Frame
 	// ---- (a) library encoder judged by the reference decoder ---------------------------------
 	vr := bridge.NewVariant(mon.NewRand(c.Seed, hash(id)))
